@@ -75,6 +75,7 @@ type c16Round struct {
 	setter     string
 	preCleanup bool
 	preGo      string    // go version set on the same structure before the bulk call ("" = none)
+	preDrop    []int     // exclusions (indices modulo the number the file has) withdrawn before the bulk call, without a Cleanup of their own
 	carry      *c16Carry // non-nil: later rounds go on with the structure of the previous round instead of re-parsing its output
 	reqs       []refmodfile.Req
 	dirs       []string
@@ -176,6 +177,13 @@ func c16Case(c *mon.Ctx, setter, id string) {
 			// the version the file then declares
 			rounds[i].preGo = gen.Pick(r, []string{"1.20", "1.21", "1.20.5", "1.21.0", "1.22rc1", "1.9", "1.100"})
 		}
+		if !work && r.IntN(3) == 0 {
+			// the usual pattern: several edits, one Cleanup at the end. The withdrawn lines are still in
+			// their block, marked dead, when the bulk call sorts it.
+			for k := r.IntN(3); k >= 0; k-- {
+				rounds[i].preDrop = append(rounds[i].preDrop, r.IntN(64))
+			}
+		}
 		rounds[i].reqs, rounds[i].dirs = c16Request(r, work)
 	}
 	nRounds := 1
@@ -247,6 +255,18 @@ func c16RoundRun(c *mon.Ctx, id string, ef *gen.EditFile, ri int, rd c16Round, m
 	}
 	if rd.preGo != "" {
 		desc = "AddGoStmt(" + rd.preGo + ");" + desc
+	}
+	for _, k := range rd.preDrop {
+		if n := len(model.Exc); n > 0 {
+			e := model.Exc[k%n]
+			if derr := mf.DropExclude(e.Path, e.Vers); derr != nil {
+				c.Inconclusive(fmt.Sprintf("DropExclude(%s,%s) refused (%s): %v", e.Path, e.Vers, id, derr))
+				return "", false
+			}
+			model.DropExclude(e.Path, e.Vers)
+			desc = "DropExclude(" + e.Path + "," + e.Vers + ");" + desc
+			c.Class("pre-drop-exclude")
+		}
 	}
 	*log = append(*log, desc)
 
